@@ -443,6 +443,7 @@ def _vec(E, p):
 @summ('Vec::push')
 def s_vec_push(E, a, info):
     oid, o = _vec(E, a[0])
+    E.work += 1
     if len(o.value) >= o.meta.get('cap', 0):
         o.meta['cap'] = max(4, 2 * o.meta.get('cap', 0))
         E.alloc_events += 1
@@ -454,9 +455,97 @@ def s_vec_push(E, a, info):
 @summ('Vec::pop')
 def s_vec_pop(E, a, info):
     oid, o = _vec(E, a[0])
+    E.work += 1
     if not o.value:
         return NONE
     return some(o.value.pop())
+
+
+@summ('Vec::remove')
+def s_vec_remove(E, a, info):
+    oid, o = _vec(E, a[0])
+    i = a[1]
+    if is_sym(i):
+        raise Unsupported('symbolic Vec index')
+    if i >= len(o.value):
+        raise Panic('removal index (is %d) should be < len (is %d)' % (i, len(o.value)), 'Vec::remove')
+    E.work += len(o.value) - i          # elements shifted
+    return o.value.pop(i)
+
+
+@summ('Vec::swap_remove')
+def s_vec_swap_remove(E, a, info):
+    oid, o = _vec(E, a[0])
+    i = a[1]
+    if i >= len(o.value):
+        raise Panic('swap_remove index out of bounds', 'Vec::swap_remove')
+    v = o.value[i]
+    o.value[i] = o.value[-1]
+    o.value.pop()
+    E.work += 1
+    return v
+
+
+@summ('Vec::insert')
+def s_vec_insert(E, a, info):
+    oid, o = _vec(E, a[0])
+    i = a[1]
+    if i > len(o.value):
+        raise Panic('insertion index out of bounds', 'Vec::insert')
+    if len(o.value) >= o.meta.get('cap', 0):
+        o.meta['cap'] = max(4, 2 * o.meta.get('cap', 0))
+        E.alloc_events += 1
+        E.events.append(('alloc', 'vec-grow', oid))
+    E.work += len(o.value) - i + 1
+    o.value.insert(i, a[2])
+    return UNIT
+
+
+@summ('Vec::contains')
+def s_vec_contains(E, a, info):
+    oid, o = _vec(E, a[0])
+    key = E.read(a[1])
+    E.work += len(o.value)
+    return any(E.key_eq(x, key) for x in o.value)
+
+
+@summ('Vec::clear')
+def s_vec_clear(E, a, info):
+    oid, o = _vec(E, a[0])
+    o.value[:] = []
+    return UNIT
+
+
+@summ('Vec::truncate')
+def s_vec_truncate(E, a, info):
+    oid, o = _vec(E, a[0])
+    del o.value[a[1]:]
+    return UNIT
+
+
+@summ('VecDeque::new')
+def s_vecdeque_new(E, a, info):
+    o = E.new_obj('vec', [], {'cap': 0, 'label': ' (VecDeque)'})
+    return Own(o)
+
+
+@summ('VecDeque::push_back')
+def s_vecdeque_push_back(E, a, info):
+    return s_vec_push(E, a, info)
+
+
+@summ('VecDeque::pop_front')
+def s_vecdeque_pop_front(E, a, info):
+    oid, o = _vec(E, a[0])
+    E.work += 1
+    if not o.value:
+        return NONE
+    return some(o.value.pop(0))
+
+
+@summ('VecDeque::pop_back')
+def s_vecdeque_pop_back(E, a, info):
+    return s_vec_pop(E, a, info)
 
 
 @summ('Vec::len')
@@ -943,6 +1032,7 @@ def s_iter_into_iter(E, a, info):
 
 def iter_next(E, itptr):
     """advance the iterator stored at itptr; returns Option value"""
+    E.work += 1
     it = E.read(itptr)
     n = it.name
     if n in ('MapIter', 'KeysIter', 'ValuesIter'):
